@@ -73,46 +73,46 @@ theorem fcExportQuals_has (f : FColl) (k v : Str) (hk : k ≠ "feature_type".toL
   · exact base
   · rw [qualGet_dictSet_other _ _ _ _ hk]; exact base
 
+theorem qualGet_fcRec_tag (q0 : QDict) (sym : Option Str) (t : Str) :
+    qualGet kLocusTag (fcRecQuals q0 sym (some t)) = [t] := by
+  unfold fcRecQuals
+  exact qualGet_dictSet_same _ _ _
+
+theorem qualGet_fcRec_other (q0 : QDict) (sym tag : Option Str) (k : Str) (h1 : k ≠ "misc_feature".toList)
+    (h2 : k ≠ "locus_tag".toList) : qualGet k (fcRecQuals q0 sym tag) = qualGet k q0 := by
+  unfold fcRecQuals
+  cases sym <;> cases tag <;> simp only [] <;>
+    first
+    | rfl
+    | (rw [qualGet_dictSet_other _ _ _ _ h2, qualGet_dictSet_other _ _ _ _ h1])
+    | (rw [qualGet_dictSet_other _ _ _ _ h2])
+    | (rw [qualGet_dictSet_other _ _ _ _ h1])
+
 theorem fcRecord_ids (strand : Strand) (bounds : Blk) (f : FColl) :
     idsOk (fcRecord strand bounds f).quals
       [(kFcId, set? f.id), (kFcName, set? f.name), (kLocusTag, fcTagWritten f)] = true := by
-  simp only [idsOk, List.all_cons, List.all_nil, Bool.and_true, Bool.and_eq_true, fcRecord]
-  have hother : ∀ (k : Str), k ≠ "misc_feature".toList → k ≠ "locus_tag".toList →
-      qualGet k (match fcTagOf f with
-        | some s => dictSet (match fcSymbolOf f with
-            | some s => dictSet (fcExportQuals f) "misc_feature".toList [s] | none => fcExportQuals f)
-            "locus_tag".toList [s]
-        | none => (match fcSymbolOf f with
-            | some s => dictSet (fcExportQuals f) "misc_feature".toList [s] | none => fcExportQuals f)) =
-      qualGet k (fcExportQuals f) := by
-    intro k h1 h2
-    cases fcTagOf f <;> cases fcSymbolOf f <;> simp only [] <;>
-      first
-      | rfl
-      | (rw [qualGet_dictSet_other _ _ _ _ h2, qualGet_dictSet_other _ _ _ _ h1])
-      | (rw [qualGet_dictSet_other _ _ _ _ h2])
-      | (rw [qualGet_dictSet_other _ _ _ _ h1])
+  have hq : (fcRecord strand bounds f).quals = fcRecQuals (fcExportQuals f) (fcSymbolOf f) (fcTagOf f) := rfl
+  rw [hq]
+  simp only [idsOk, List.all_cons, List.all_nil, Bool.and_true, Bool.and_eq_true]
   refine ⟨?_, ?_, ?_⟩
   · cases hv : set? f.id with
     | none => rfl
     | some v =>
       simp only [hasQual]
-      rw [hother _ (by decide) (by decide)]
+      rw [qualGet_fcRec_other _ _ _ _ (by decide) (by decide)]
       simpa using fcExportQuals_has f _ v (by decide) (by rw [← hv]; exact List.mem_cons_self)
   · cases hv : set? f.name with
     | none => rfl
     | some v =>
       simp only [hasQual]
-      rw [hother _ (by decide) (by decide)]
+      rw [qualGet_fcRec_other _ _ _ _ (by decide) (by decide)]
       simpa using fcExportQuals_has f _ v (by decide)
         (by rw [← hv]; exact List.mem_cons_of_mem _ List.mem_cons_self)
   · cases ht : fcTagWritten f with
     | none => rfl
     | some t =>
       simp only [hasQual]
-      rw [fcTagOf_eq f, ht]
-      simp only []
-      rw [show kLocusTag = "locus_tag".toList from rfl, qualGet_dictSet_same]
+      rw [fcTagOf_eq f, ht, qualGet_fcRec_tag]
       simp
 
 theorem featExportQuals_has (x : FeatI) (k v : Str) (hk : k ≠ "feature_type".toList)
@@ -127,6 +127,26 @@ theorem featExportQuals_has (x : FeatI) (k v : Str) (hk : k ≠ "feature_type".t
   split
   · exact base
   · rw [qualGet_dictSet_other _ _ _ _ hk]; exact base
+
+theorem featRecord_ids (cfg : Cfg) (strand : Strand) (name tag : Option Str) (x : FeatI) :
+    idsOk (featRecord cfg strand name tag x).quals [(kFeatId, set? x.featId), (kFeatName, set? x.featName)] = true := by
+  have hq : (featRecord cfg strand name tag x).quals = txBaseQuals (featExportQuals x) (truthy name) (truthy tag) := rfl
+  rw [hq]
+  simp only [idsOk, List.all_cons, List.all_nil, Bool.and_true, Bool.and_eq_true]
+  refine ⟨?_, ?_⟩
+  · cases hv : set? x.featId with
+    | none => rfl
+    | some v =>
+      simp only [hasQual]
+      rw [qualGet_txBase_other _ _ _ _ (by decide) (by decide)]
+      simpa using featExportQuals_has x _ v (by decide)
+        (by rw [← hv]; exact List.mem_cons_of_mem _ List.mem_cons_self)
+  · cases hv : set? x.featName with
+    | none => rfl
+    | some v =>
+      simp only [hasQual]
+      rw [qualGet_txBase_other _ _ _ _ (by decide) (by decide)]
+      simpa using featExportQuals_has x _ v (by decide) (by rw [← hv]; exact List.mem_cons_self)
 
 /-- **T1, feature collections**: every structural clause of a well-formed feature collection holds -/
 theorem fc_struct_ok (cfg : Cfg) (c : Coll) (rs : List Rec) (h : writeModel cfg c = .ok rs)
@@ -150,61 +170,28 @@ theorem fc_struct_ok (cfg : Cfg) (c : Coll) (rs : List Rec) (h : writeModel cfg 
     apply hasRecord_of_mem rs (fcRecord strand bounds f) (hsub _ (by rw [hshape]; exact List.mem_cons_self))
     · rfl
     · exact (hstrand x0 (by rw [hfe]; exact List.mem_cons_self)).symm
-    · simp only [fcRecord, hbounds]; exact sameBlocks_refl _
+    · have : (fcRecord strand bounds f).parts = [sp] := by rw [← hbounds]; rfl
+      rw [this]; exact sameBlocks_refl _
     · exact fcRecord_ids strand bounds f
   rw [need_nil _ _ _ _ _ _ hfc, List.nil_append]
   apply flatMap_eq_nil'
   intro x hx
   apply need_nil
-  -- the record of feature interval `x`
   have hxs := hstrand x hx
   have hrec : featureToFeatures cfg strand (fcSymbolOf f) f.locusTag x =
-      [{ type := "feat_interval".toList, strand := strand, parts := toBiopythonParts cfg.rule x.strand x.blocks,
-         quals :=
-           (match truthy f.locusTag with
-            | some s => dictSet (match truthy (fcSymbolOf f) with
-                | some s => dictSet (featExportQuals x) "gene".toList [s] | none => featExportQuals x)
-                "locus_tag".toList [s]
-            | none => (match truthy (fcSymbolOf f) with
-                | some s => dictSet (featExportQuals x) "gene".toList [s] | none => featExportQuals x)) }] := by
+      [featRecord cfg strand (fcSymbolOf f) f.locusTag x] := by
     unfold featureToFeatures
-    simp only [hxs, ne_eq, not_true_eq_false, false_and, if_false]
-  have hmem : ∀ r ∈ featureToFeatures cfg strand (fcSymbolOf f) f.locusTag x, r ∈ rs := fun r hr =>
-    hsub r (by rw [hshape]; exact List.mem_cons_of_mem _ (List.mem_flatMap.mpr ⟨x, hx, hr⟩))
-  rw [hrec] at hmem
-  apply hasRecord_of_mem rs _ (hmem _ List.mem_cons_self)
+    rw [if_neg]
+    intro hcon
+    exact hcon.1 hxs
+  have hmem : featRecord cfg strand (fcSymbolOf f) f.locusTag x ∈ rs :=
+    hsub _ (by
+      rw [hshape]
+      exact List.mem_cons_of_mem _ (List.mem_flatMap.mpr ⟨x, hx, by rw [hrec]; exact List.mem_cons_self⟩))
+  apply hasRecord_of_mem rs _ hmem
   · rfl
   · exact hxs.symm
   · exact sameBlocks_parts _ _ _
-  · simp only [idsOk, List.all_cons, List.all_nil, Bool.and_true, Bool.and_eq_true]
-    have hother : ∀ (k : Str), k ≠ "gene".toList → k ≠ "locus_tag".toList →
-        qualGet k (match truthy f.locusTag with
-            | some s => dictSet (match truthy (fcSymbolOf f) with
-                | some s => dictSet (featExportQuals x) "gene".toList [s] | none => featExportQuals x)
-                "locus_tag".toList [s]
-            | none => (match truthy (fcSymbolOf f) with
-                | some s => dictSet (featExportQuals x) "gene".toList [s] | none => featExportQuals x)) =
-        qualGet k (featExportQuals x) := by
-      intro k h1 h2
-      cases truthy f.locusTag <;> cases truthy (fcSymbolOf f) <;> simp only [] <;>
-        first
-        | rfl
-        | (rw [qualGet_dictSet_other _ _ _ _ h2, qualGet_dictSet_other _ _ _ _ h1])
-        | (rw [qualGet_dictSet_other _ _ _ _ h2])
-        | (rw [qualGet_dictSet_other _ _ _ _ h1])
-    refine ⟨?_, ?_⟩
-    · cases hv : set? x.featId with
-      | none => rfl
-      | some v =>
-        simp only [hasQual]
-        rw [hother _ (by decide) (by decide)]
-        simpa using featExportQuals_has x _ v (by decide)
-          (by rw [← hv]; exact List.mem_cons_of_mem _ List.mem_cons_self)
-    · cases hv : set? x.featName with
-      | none => rfl
-      | some v =>
-        simp only [hasQual]
-        rw [hother _ (by decide) (by decide)]
-        simpa using featExportQuals_has x _ v (by decide) (by rw [← hv]; exact List.mem_cons_self)
+  · exact featRecord_ids cfg strand _ _ x
 
 end BioCantor.Proofs.Gb
